@@ -29,6 +29,24 @@ def replay_scenarios(ck, binary, name, scenarios):
     path = os.path.join(wd, name + ".ndjson")
     vf.write_ndjson(path, scenarios)
     rc, out, err = vf.run_harness(binary, ["readadapter", path], timeout=900)
+    if rc < 0 or rc == 134:
+        # the process was killed by a signal (abort on allocation failure, ...): that is an outcome of the
+        # code under test; locate the first scenario that kills it by bisection on the prefix length
+        lo, hi = 0, len(scenarios)          # prefix of length lo survives, of length hi dies
+        while hi - lo > 1:
+            mid = (lo + hi) // 2
+            vf.write_ndjson(path, scenarios[:mid])
+            r2, _, _ = vf.run_harness(binary, ["readadapter", path], timeout=900)
+            if r2 < 0 or r2 == 134:
+                hi = mid
+            else:
+                lo = mid
+        sc = scenarios[hi - 1]
+        ck.violation("ReadAdapter: the process aborts (signal %d) on a request sequence" % abs(rc if rc < 0 else 6),
+                     json.dumps(sc["ops"])[:300], {"engine": "readadapter", "scenario": sc, "detail": {"rc": rc, "stderr": err[-300:]}})
+        scenarios = scenarios[:hi - 1]
+        vf.write_ndjson(path, scenarios)
+        rc, out, err = vf.run_harness(binary, ["readadapter", path], timeout=900)
     if rc != 0:
         raise vf.ToolError("harness readadapter failed rc=%d: %s" % (rc, err[-2000:]))
     summary = None
